@@ -151,3 +151,4 @@ VP('C18', 'C18-e2', 'C18.R3', 'never-verbatim-when-quoting-needed')
 VP('C18', 'C18-e3', 'C18.R3', 'escapes-single-quote')
 VP('C18', 'C18-f2', 'C18.R2', 'raw-only-under-guard')
 VP('C18', 'C18-f1', 'C18.L', 'memo-keys')
+VP('C18', 'C18-f3', 'C18.R3', 'hex-only')
